@@ -11,7 +11,7 @@ import (
 // ---- oracle pools: labelled by hand from the documentation of the external validators ----
 
 var goodCrons = []string{"* * * * *", "*/5 * * * *", "0 2 */3 * * *", "*/10 * * * * *", "0 */3 * * *", "@hourly", "15 10 1 1 *"}
-var badCrons = []string{"", "a b c d e", "* * * *", "61 * * * *", "* * * * * * *", "every minute"}
+var badCrons = []string{"", "a b c d e", "* * * *", "61 * * * *", "* * * * * * *", "every minute", "*/0 * * * *", "*/+0 * * * *", "3-9/-00 * * * *"}
 
 var goodDurs = []Dur{{"3s", 3e9}, {"1m", 60e9}, {"500ms", 5e8}, {"1h30m", 5400e9}, {"0", 0}, {"1.5s", 15e8}}
 var badDurs = []string{"", "3", "abc", "1 s", "s"}
@@ -855,6 +855,10 @@ func (g *gen) corpus() []core.In[Input] {
 		g.f22(map[string]any{"configVersion": "v1", "schedule": []any{map[string]any{"crontab": "*/0 * * * *"}}}, true, "*/0 * * * *"),
 		g.f22(map[string]any{"schedule": []any{map[string]any{"crontab": "* * * * */0"}}}, false, "* * * * */0"),
 		g.f22(map[string]any{"configVersion": "v1", "schedule": []any{map[string]any{"crontab": "*/5 * * * *"}, map[string]any{"crontab": "0 1-5/00 * * * *"}}}, true, "0 1-5/00 * * * *"),
+		// ... and so did a SIGNED zero step, which the first guard did not match (repaired 0fa9dda): cron.v2 reads the step with Atoi
+		g.f22(map[string]any{"configVersion": "v1", "schedule": []any{map[string]any{"crontab": "*/+0 * * * *"}}}, true, "*/+0 * * * *"),
+		g.f22(map[string]any{"schedule": []any{map[string]any{"crontab": "* */-0 * * *"}}}, false, "* */-0 * * *"),
+		g.f22(map[string]any{"configVersion": "v1", "schedule": []any{map[string]any{"crontab": "0 1-5/+00 * * * *"}}}, true, "0 1-5/+00 * * * *"),
 		// F18 (repaired): an invalid namespace.labelSelector of a kubernetes binding used to be accepted
 		g.f18(map[string]any{"matchExpressions": []any{map[string]any{"key": "tier", "operator": "In"}}}),
 		g.f18(map[string]any{"matchLabels": map[string]any{"bad key!": "x"}}),
